@@ -103,6 +103,7 @@ def regenerate(res):
         res.broken.append("translator T7 (mdplace2gallina) rejects the current placement code: %s" % e)
         return
     common.write_if_changed(os.path.join(common.COQ, "Gen", "MdPlaceGen.v"), text)
+    common.regenerate_with(res, "mdfront2gallina", "MdFrontGen.v", "T22: DigitalMetadataWriter.write / _write front end (verbatim guard)")
 
 
 def run_config(res, n, d, fc, sc, ks, queries, stats):
